@@ -20,7 +20,7 @@ func init() {
 	register(&Driver{
 		ID:        "C17",
 		Technique: "exhaustive enumeration of a value x field-type x binding-path matrix (same-kind pairs), one reflect.StructOf holder and one real start per cell; oracle: prefix path = strict YAML decoding of the value into the field type, value / prop paths = their prefix twin, literal = as written",
-		Rule:      "values = integers {0,1,-1,2^31,2^53+1,MaxInt64}, floats {1.5,0.1,2.0,1e21}, booleans, 19 strings (plain, number-like, boolean-like, quoted, bracketed, map-like, JSON-like, empty, padded, with , = : }), lists (strings, ints, number-like strings), maps; field types {string,*string,int,int64,uint8,float64,bool,[]string,[]int,map[string]any,map[string]string,struct,*struct,any}; paths {prefix, value:\"${k}\", prop:\"k\", literal in value}; only same-kind (value, type) pairs; non-trivial = value whose text form differs from its typed form (number-like / boolean-like / quoted / bracketed strings, big integers, floats, containers)",
+		Rule:      "values = integers {0,1,-1,2^31,2^53+1,MaxInt64}, floats {1.5,0.1,2.0,1e21}, booleans, 19 strings (plain, number-like, boolean-like, quoted, bracketed, map-like, JSON-like, empty, padded, with , = : }), lists (strings, ints, number-like strings), maps; field types {string,*string,int,int64,uint8,float64,bool,[]string,[]int,map[string]any,map[string]string,struct,*struct,any}; paths {prefix, value:\"${k}\", prop:\"k\", the same two with a default although the key is configured, literal in value}; only same-kind (value, type) pairs; non-trivial = value whose text form differs from its typed form (number-like / boolean-like / quoted / bracketed strings, big integers, floats, containers)",
 		Assumptions: []string{
 			"cross-kind pairs (e.g. bool into string) are outside the property",
 			"for any / map[string]any targets numbers are compared by value (3 and 3.0 are the same result)",
@@ -85,6 +85,21 @@ func c17Compatible(vk, tn string) bool {
 		return tn == "mapany" || tn == "struct" || tn == "pstruct" || tn == "any"
 	}
 	return false
+}
+
+// c17Default is a default text of the field's kind that differs from every configured value.
+func c17Default(tn string) string {
+	switch tn {
+	case "string", "pstring", "any":
+		return "dflt"
+	case "int", "int64", "uint8":
+		return "77"
+	case "float64":
+		return "9.5"
+	case "bool":
+		return "maybe" // not a boolean: must never be looked at when the key is configured
+	}
+	return ""
 }
 
 type c17Case struct {
@@ -162,7 +177,10 @@ func c17Run(c *core.Ctx) {
 				if !c17Compatible(k, tn) {
 					continue
 				}
-				for _, p := range []string{"prefix", "value", "prop"} {
+				for _, p := range []string{"prefix", "value", "prop", "value-default", "prop-default"} {
+					if strings.HasSuffix(p, "-default") && c17Default(tn) == "" {
+						continue
+					}
 					if !yield(c17Case{k, tn, p}) {
 						return
 					}
@@ -212,6 +230,10 @@ func c17Run(c *core.Ctx) {
 			tag = fmt.Sprintf(`value:"${%s}"`, cs.Val)
 		case "prop":
 			tag = fmt.Sprintf(`prop:"%s"`, cs.Val)
+		case "value-default": // the key is configured, so the default must be ignored
+			tag = fmt.Sprintf(`value:"${%s:%s}"`, cs.Val, c17Default(cs.Type))
+		case "prop-default":
+			tag = fmt.Sprintf(`prop:"%s:%s"`, cs.Val, c17Default(cs.Type))
 		case "literal":
 			tag = "value:" + strconv.Quote(raw.(string))
 		}
